@@ -219,6 +219,21 @@ func (w *World) verifyUnit(u *Unit) *Exec {
 		return e
 	}
 	e.sc.cover(out.reach, u.Name+"#cover.exit", "normal exit is reachable")
+	// vacuity guard for the path facts: succeeded("K") / called("K") / calls("K") / lastret("K") about a
+	// callee K for which no call was executed in this unit would be constants (false / 0) - a clause built
+	// on them is either trivially true or unprovable, never what its author meant
+	for _, named := range []map[string]bool{e.succNamed, e.calledNamed, e.callsNamed, e.lastretNamed} {
+		var ks []string
+		for k := range named {
+			ks = append(ks, k)
+		}
+		sort.Strings(ks)
+		for _, k := range ks {
+			if !e.seenCallee[k] {
+				e.errorf("%s: the contract speaks about calls of %q (succeeded/called/calls/lastret), but no call with that key occurs in the function", u.Name, k)
+			}
+		}
+	}
 	if u.FC != nil {
 		vars := map[string]Val{}
 		for k, v := range fr.params {
